@@ -274,7 +274,7 @@ def parse_cbmc_json(path):
     except Exception as e:  # truncated output (killed)
         return None, "unparsable cbmc output: %s" % e
     res = {"results": [], "errors": [], "symex_s": None, "solver_s": None,
-           "prover": None, "vccs": None}
+           "prover": None, "vccs": None, "steps": None}
     for e in data:
         if not isinstance(e, dict):
             continue
@@ -288,6 +288,9 @@ def parse_cbmc_json(path):
             m = re.search(r"Runtime Solver: ([0-9.e+-]+)s", mt)
             if m:
                 res["solver_s"] = (res["solver_s"] or 0) + float(m.group(1))
+            m = re.search(r"size of program expression: (\d+) steps", mt)
+            if m:
+                res["steps"] = int(m.group(1))
             m = re.search(r"Generated (\d+) VCC\(s\), (\d+) remaining", mt)
             if m:
                 res["vccs"] = [int(m.group(1)), int(m.group(2))]
@@ -454,6 +457,7 @@ def interpret(pr, rc, err, cmd, wall, mem):
     r["symex_s"] = parsed["symex_s"]
     r["solver_s"] = parsed["solver_s"]
     r["vccs"] = parsed["vccs"]
+    r["steps"] = parsed["steps"]
     results = parsed["results"]
     if parsed["errors"] and not results:
         msg = "; ".join(parsed["errors"])[:600]
@@ -626,7 +630,7 @@ def job(prop, q, variant, tier_caps, known_regions):
                 defs["WITNESS_" + variant[1]] = 1
         try:
             if q.cxx:
-                q.cxx(q, wd)
+                defs.update(q.cxx(q, wd) or {})
             gb = build_goto(q, wd, defs)
             gb, table = restrict_fp(q, gb, wd)
             res["fp_restrictions"] = table
@@ -636,6 +640,23 @@ def job(prop, q, variant, tier_caps, known_regions):
         r = run_cbmc(q, gb, wd, "1", kind == "witness", tier_caps, False)
         res.update(r)
         res["defs"] = defs
+        if kind == "witness" and r["status"] == "FAILED" and r.get("inputs") is not None and q.replay \
+                and not os.environ.get("VERIF_NO_WITNESS_REPLAY"):
+            # validate the witness trace against the implementation: the same inputs must drive the
+            # native build (real units, real libc, ASan/UBSan) to the end of the harness
+            wp = os.path.join(wd, "witness.in")
+            with open(wp, "w") as f:
+                for (k, v, n) in r["inputs"]:
+                    f.write("%d %d # %s\n" % (k, v, n or "?"))
+            try:
+                exe = build_native(q, wd, defs)
+                env = dict(os.environ)
+                env["VERIF_REPLAY_FILE"] = wp
+                env["ASAN_OPTIONS"] = "detect_leaks=0:exitcode=99"
+                pr = subprocess.run([exe], stdout=subprocess.PIPE, stderr=subprocess.STDOUT, env=env, timeout=60)
+                res["witness_native_rc"] = pr.returncode
+            except Exception as e:  # noqa
+                res["witness_native_rc"] = "error: %s" % str(e)[:200]
         if r["status"] == "FAILED" and kind != "witness":
             descs = [(f["property"], f["description"] or "") for f in r.get("failed", [])]
             if descs and all(UB_ONLY_PAT.search(d) for (_, d) in descs):
@@ -865,13 +886,21 @@ def check_property(prop, tier, only=None, keep=False):
         "coverage": {
             "evaluations": len(results),
             "distinct_nontrivial": len(nontrivial),
+            "states": max(1, sum((r.get("steps") or 0) for r in results)),
+            "transitions": max(1, sum(((r.get("vccs") or [0])[0]) for r in results)),
+            "traces_validated_against_impl": sum(1 for r in results if r.get("witness_native_rc") == 0)
+                                             + sum(1 for r in results if r.get("replayed") is True),
+            "states_transitions_meaning": "states = symbolic-execution steps (SSA program size reported by CBMC) summed over all runs; "
+                                          "transitions = verification conditions generated; traces_validated_against_impl = counterexample traces "
+                                          "(witness reachability traces and violations) whose inputs were replayed on the native ASan/UBSan build of the "
+                                          "same real units and behaved as the solver said (witness: ran to the harness end with every oracle assertion holding)",
             "rule": "one evaluation = one CBMC run (main query, witness twin or known-finding twin) over the real /repo units; "
                     "a query counts as distinct non-trivial iff its main run returned UNSAT for every assertion, bounds/pointer check "
                     "and unwinding assertion AND all of its witness twins returned SAT (end state reachable, assumptions consistent)",
             "samples": samples,
             "exhaustive": False,
             "functions_encoded": funcs,
-            "queries": [{k: r.get(k) for k in ("query", "variant", "harness", "status", "why", "checks_total",
+            "queries": [{k: r.get(k) for k in ("query", "variant", "harness", "status", "why", "witness_native_rc", "steps", "checks_total",
                                                  "checks_failed", "symex_s", "solver_s", "wall_s", "rss_kb",
                                                  "vccs", "backend", "cmd", "defs", "failed", "replay_file", "replayed")}
                         for r in results],
@@ -936,7 +965,7 @@ def do_replay(prop, path):
                 wd = tempfile.mkdtemp(prefix="verif-replay-")
                 try:
                     if q.cxx:
-                        q.cxx(q, wd)
+                        defs.update(q.cxx(q, wd) or {})
                     ok, txt = native_replay(q, wd, defs, os.path.abspath(path))
                 finally:
                     shutil.rmtree(wd, ignore_errors=True)
